@@ -37,9 +37,13 @@ EXPECT = {
     # without orbitals (where the writer accepts that) the basis still has to fit the format
     "no orbitals, SS generalized contraction": (("mo", (E, C)), ("mo", (E, C)), ("mo", (E, C)), ("mo", (E, C)), ("mo", (E, C))),
     "no orbitals, SP shell":       (("mo", (P, P)), ("mo", (E, C)), ("mo", (E, C)), ("mo", (E, C)), ("mo", (E, C))),
+    # effective core charges: FCHK, Molden and WFX store them; WFN drops them; the Molekel reader derives the electron
+    # count from the atomic numbers in $COORD and the charge, so a file written for such an object is rejected by it
+    "ECP centre (atcorenums != atnums)": ((P, P), (P, P),     (E, E),     (P, P),     (P, P)),
 }
 FORMATS = ("fchk", "molden", "molekel", "wfn", "wfx")
 WHY = {
+    "ECP centre (atcorenums != atnums)": "the Molekel reader computes the electron count as the sum of the atomic numbers minus the charge: with effective core charges the written occupations contradict it and the file is rejected",
     "no orbitals, SS generalized contraction": "no format stores general contractions, with or without orbitals",
     "no orbitals, SP shell": "only FCHK can store SP shells, with or without orbitals",
     "ROHF, hole below": "FCHK stores electron counts, not occupations: only aufbau occupations (alpha AND beta) can be represented",
@@ -72,7 +76,7 @@ def _objects(prog):
         return Rec(mo_cls, kind=kind, norba=(None if kind == "generalized" else na), norbb=(None if kind == "generalized" else na), occs=np.array(occs, dtype=float), coeffs=sym_array("c", (2, n)), energies=None, irreps=None, occs_aminusb=(None if aminusb is None else np.array(aminusb, dtype=float)))
 
     plain_basis = lambda: basis(shell([0], ["c"]), shell([2], ["c"]))
-    mk = lambda **kw: Rec(iocls, **{"mo": mo(), "obasis": plain_basis(), **kw})
+    mk = lambda **kw: Rec(iocls, **{"mo": mo(), "obasis": plain_basis(), "atnums": np.array([8, 1]), "_atcorenums": np.array([8.0, 1.0]), "_charge": None, "_nelec": None, "_spinpol": None, **kw})
     return {
         "plain restricted": lambda: mk(),
         "plain unrestricted": lambda: mk(mo=mo("unrestricted", (1.0, 1.0, 0.0, 1.0, 0.0, 0.0))),
@@ -90,6 +94,7 @@ def _objects(prog):
         "PD shell, Cartesian p + pure d": lambda: mk(obasis=basis(shell([1, 2], ["c", "p"]))),
         "no orbitals, SS generalized contraction": lambda: mk(mo=None, obasis=basis(shell([0, 0], ["c", "c"]))),
         "no orbitals, SP shell": lambda: mk(mo=None, obasis=basis(shell([0, 1], ["c", "c"]))),
+        "ECP centre (atcorenums != atnums)": lambda: mk(_atcorenums=np.array([6.0, 1.0])),
     }
 
 
